@@ -186,7 +186,18 @@ def attr_classes(methods):
                 for el in (t.elts if isinstance(t, (ast.Tuple, ast.List)) else [t]):
                     if isinstance(el, ast.Attribute) and U(el.value) == 'self':
                         (init_attrs if name == '__init__' else other_attrs).add(el.attr)
-    return other_attrs - init_attrs, init_attrs
+    # a slot the constructor only marks as "nothing yet" (`self.x = None`) and a method fills in is per-call state, not configuration: its
+    # reads are judged like those of any other attribute written during a call (A2: no read before this activation's write, except under
+    # the warm-start flag)
+    unset = set()
+    init = methods.get('__init__')
+    if init is not None:
+        for s in walk_shallow(init.node):
+            if isinstance(s, ast.Assign) and isinstance(s.value, ast.Constant) and s.value.value is None:
+                for t in s.targets:
+                    if isinstance(t, ast.Attribute) and U(t.value) == 'self' and t.attr in other_attrs:
+                        unset.add(t.attr)
+    return (other_attrs - init_attrs) | unset, init_attrs - unset
 
 
 # ------------------------------------------------------------------------------------------------ A2
